@@ -224,6 +224,20 @@ fn execute(h: &Hist, msgs: &[Vec<(Kind, LogThreadMsg)>]) -> Result<Outcome, crat
     Ok(Outcome { logs, cwes, completed: completed_before, order, order_len_before_collect })
 }
 
+/// `check` for huge histories: the history itself is not rendered into samples and failure details stay short.
+fn check_quiet(h: &Hist, ctx: &mut Ctx) -> CaseResult {
+    QUIET.with(|q| q.set(true));
+    let r = check(h, ctx);
+    QUIET.with(|q| q.set(false));
+    r.map_err(|mut f| {
+        f.detail = f.detail.chars().take(600).collect();
+        f
+    })
+}
+thread_local! {
+    static QUIET: std::cell::Cell<bool> = const { std::cell::Cell::new(false) };
+}
+
 fn check(h: &Hist, ctx: &mut Ctx) -> CaseResult {
     let msgs = scripts(h);
     let n = h.threads.len();
@@ -281,9 +295,13 @@ fn check(h: &Hist, ctx: &mut Ctx) -> CaseResult {
     let nontrivial = n >= 2 && dup_cwe && pause_before_send;
     if nontrivial {
         ctx.label("nontrivial");
-        ctx.nontrivial(fnv(format!("{:?}", h).as_bytes()));
+        if !QUIET.with(|q| q.get()) {
+            ctx.nontrivial(fnv(format!("{:?}", h).as_bytes()));
+        }
     }
-    ctx.sample(|| format!("{:?}", h));
+    if !QUIET.with(|q| q.get()) {
+        ctx.sample(|| format!("{:?}", h));
+    }
 
     // ---- run
     let out = match execute(h, &msgs) {
@@ -670,6 +688,37 @@ pub fn run(eng: &mut Engine) {
             let (h, msgs) = decode_identical(&mut Tape::new(tape));
             show_identical(&h, &msgs)
         },
+    );
+    // Volume: histories with many more messages than any analysis step emits at once (70 000 .. 140 000 address-less
+    // Debug/Info/Error logs from 1..3 joined threads, plus a few located logs and warnings). Same history oracle.
+    let volume_cases = eng.tier.pick(6u64, 40u64);
+    eng.enumerate(
+        "volume",
+        volume_cases,
+        true,
+        |i, ctx| {
+            let n = 1 + (i % 3) as usize;
+            let total = 70_000 + 10_000 * (i % 8) as usize;
+            let level = (i % 3) as u8; // 0 Info, 1 Debug, 2 Error (the build_msg mapping)
+            let mut threads = vec![];
+            for ti in 0..n {
+                let mut acts = vec![];
+                for k in 0..total / n {
+                    acts.push(Act::Send { kind: Kind::Log, level: if k % 97 == 0 { (level + 1) % 3 } else { level }, source: (k % 3) as u8 });
+                    if k % 20_000 == 19_999 {
+                        acts.push(Act::Send { kind: Kind::LogAt((ti + k) % 5), level: 0, source: 0 });
+                        acts.push(Act::Send { kind: Kind::Cwe(k % 5, None), level: 0, source: 1 });
+                    }
+                }
+                threads.push(acts);
+            }
+            let h = Hist { sequential: false, joined: vec![true; n], threads, pre_collect: Act::Yield };
+            ctx.nontrivial_by_construction(1);
+            ctx.label("volume>=70000-messages");
+            ctx.sample(|| format!("{} threads, {} address-less logs in total, dominant level {}", n, total, level));
+            check_quiet(&h, ctx)
+        },
+        |i| format!("volume history #{}: {} threads, {} address-less logs", i, 1 + (i % 3), 70_000 + 10_000 * (i % 8)),
     );
     eng.require_fraction("identical-messages", "same-message-back-to-back-in-one-thread", 0.30);
     eng.require_fraction("identical-messages", "same-message-from-two-threads", 0.30);
